@@ -150,8 +150,11 @@ def check(run: Run) -> None:
                 if fl.nodes_of(touch):
                     R.k2_precede(run, "C05.b", fl, prep, touch, f"{cls}::{nm}: prepare_delta before keys/masks are touched")
                 else:
-                    R.require_nodes(run, fl, prep, f"{cls}::{nm} prepare_delta")
-                if nm != "record_child_modified":
+                    run.count(1, f"C05.b.{cls}.{nm}.prepare")
+                    if not fl.nodes_of(prep):
+                        run.finding("C05.b", f"{cls}::{nm}:no-prepare-delta", f"{cls}::{nm} writes at a new time without rolling the delta window "
+                                    "(prepare_delta): the previous write's added/removed bits stay readable as this tick's delta", loc=SLOT)
+                if nm != "record_child_modified" and fl.nodes_of(prep):
                     val = R.call_is(name="validate_mutation_time")
                     R.k2_precede(run, "C05.b", fl, val, prep, f"{cls}::{nm}: the mutation time is validated before the window rolls")
                 n += 1
@@ -261,8 +264,55 @@ def check(run: Run) -> None:
             if surf not in lhs.lower():
                 run.finding("C05.f", f"surface:{lhs}", f"`{lhs}` receives the {surf} surface", loc=SLOT)
 
+    with run.obligation("C05.g", "K1", "TSD / TSS removal tables (remove_key, remove_slot): nothing changes unless the key store removed the slot; a removal "
+                        "cancels a same-cycle add (else records a removal); TSD additionally un-publishes the slot's value on EVERY removal, clears its "
+                        "modified bit and stamps the key set's own tracking on EVERY membership change"):
+        n = 0
+        for cls in STORES:
+            for nm in ("remove_key", "remove_slot"):
+                fa = R.fn(run, SLOT, nm, cls=cls)
+                tsd = cls == "TSDSlotStorage"
+                roles = [Role("ADDED", "bool", r"slot_added\(.*\)"), Role("REMOVED_OK", "bool", r"keys_\.remove_slot\(.*\)")]
+                if nm == "remove_key":
+                    roles.append(Role("NOTFOUND", "bool", r"keys_\.find_slot\(key\)==KeySlotStore::npos|KeySlotStore::npos==keys_\.find_slot\(key\)"))
+                else:
+                    roles += [Role("NPOS", "bool", r"slot==KeySlotStore::npos|KeySlotStore::npos==slot"), Role("LIVE", "bool", r"keys_\.slot_live\(slot\)")]
+                if tsd:
+                    roles.append(Role("PUB", "bool", r"slot_value_published\(.*\)"))
+
+                def spec(v, nm=nm, tsd=tsd):
+                    calls = [("VALIDATE", ("modified_time",)), ("PREPARE", ("modified_time",))]
+                    if nm == "remove_key":
+                        if v.b("NOTFOUND"):
+                            return Expect(calls=calls)
+                    elif v.b("NPOS") or not v.b("LIVE"):
+                        return Expect(calls=calls)
+                    if tsd:
+                        calls.append(("STOPTREE", (ANY,)))
+                    if not v.b("REMOVED_OK"):
+                        return Expect(calls=calls)
+                    calls.append(("ENSURE", ()))
+                    if tsd:
+                        if v.b("PUB"):
+                            calls.append(("ADD_RESET", (ANY,)) if v.b("ADDED") else ("REM_SET", (ANY,)))
+                            calls.append(("UNPUBLISH", (ANY,)))
+                        calls.append(("MOD_RESET", (ANY,)))
+                        calls.append(("KEYSET", ("modified_time",)))
+                    else:
+                        calls.append(("ADD_RESET", (ANY,)) if v.b("ADDED") else ("REM_SET", (ANY,)))
+                    return Expect(calls=calls)
+                R.k1(run, "C05.g", fa, roles, spec, role_calls={"VALIDATE": r"validate_mutation_time", "PREPARE": r"prepare_delta", "STOPTREE": r".*stop_owned_ts_data_tree",
+                                                                "ENSURE": r"ensure_delta_capacity", "ADD_RESET": r"added_\.reset", "REM_SET": r"removed_\.set",
+                                                                "UNPUBLISH": r"value_published_\.reset", "MOD_RESET": r"modified_\.reset",
+                                                                "KEYSET": r"key_set_tracking_\.record_modified"}, what=f"{cls}::{nm}")
+                n += 1
+        run.sites(n, 4, "removal functions")
+
 
 VARIANTS = [
+    {"id": "b-touch-does-not-roll-window", "expect": "C05.b", "edits": [{"file": SLOT, "find": "            [[nodiscard]] bool touch(DateTime modified_time)\n            {\n                validate_mutation_time(modified_time);\n                prepare_delta(modified_time);\n                return tracking_.last_modified_time != modified_time;", "replace": "            [[nodiscard]] bool touch(DateTime modified_time)\n            {\n                validate_mutation_time(modified_time);\n                ensure_delta_capacity();\n                return tracking_.last_modified_time != modified_time;"}]},
+    {"id": "g-tsd-unpublish-only-when-removal-recorded", "expect": "C05.g", "edits": [{"file": SLOT, "find": "                    if (slot_added(slot)) { added_.reset(slot); }\n                    else { removed_.set(slot); }\n                    value_published_.reset(slot);\n                }\n                modified_.reset(slot);\n                (void)key_set_tracking_.record_modified(modified_time);\n                return mutation_result(slot);\n            }\n\n            [[nodiscard]] SlotTSDataMutationResult remove_slot", "replace": "                    if (slot_added(slot)) { added_.reset(slot); }\n                    else { removed_.set(slot); value_published_.reset(slot); }\n                }\n                modified_.reset(slot);\n                (void)key_set_tracking_.record_modified(modified_time);\n                return mutation_result(slot);\n            }\n\n            [[nodiscard]] SlotTSDataMutationResult remove_slot"}]},
+    {"id": "g-tsd-keyset-stamped-only-for-published", "expect": "C05.g", "edits": [{"file": SLOT, "find": "                    value_published_.reset(slot);\n                }\n                modified_.reset(slot);\n                (void)key_set_tracking_.record_modified(modified_time);\n                return mutation_result(slot);\n            }\n\n            [[nodiscard]] SlotTSDataMutationResult remove_slot", "replace": "                    value_published_.reset(slot);\n                    (void)key_set_tracking_.record_modified(modified_time);\n                }\n                modified_.reset(slot);\n                return mutation_result(slot);\n            }\n\n            [[nodiscard]] SlotTSDataMutationResult remove_slot"}]},
     {"id": "a-no-cancel-insert", "expect": "C05.a", "edits": [{"file": SLOT, "find": "                if (slot_removed(result.slot)) { removed_.reset(result.slot); }\n                else { added_.set(result.slot); }\n                return mutation_result(result.slot, result.constructed);\n            }\n\n            [[nodiscard]] SlotTSDataMutationResult insert_key_move", "replace": "                added_.set(result.slot);\n                return mutation_result(result.slot, result.constructed);\n            }\n\n            [[nodiscard]] SlotTSDataMutationResult insert_key_move"}]},
     {"id": "a-remove-sets-both", "expect": "C05.a", "edits": [{"file": SLOT, "find": "                if (slot_added(slot)) { added_.reset(slot); }\n                else { removed_.set(slot); }\n                return mutation_result(slot);\n            }\n\n            [[nodiscard]] SlotTSDataMutationResult remove_slot", "replace": "                if (slot_added(slot)) { added_.reset(slot); }\n                removed_.set(slot);\n                return mutation_result(slot);\n            }\n\n            [[nodiscard]] SlotTSDataMutationResult remove_slot"}]},
     {"id": "a-accessor-swapped", "expect": "C05.a", "edits": [{"file": SLOT, "find": "            [[nodiscard]] std::size_t next_removed_slot(std::size_t previous) const noexcept\n            {\n                return next_delta_slot(removed_, previous);", "replace": "            [[nodiscard]] std::size_t next_removed_slot(std::size_t previous) const noexcept\n            {\n                return next_delta_slot(added_, previous);"}]},
